@@ -6,6 +6,9 @@ EXTS = ['', '', '.txt', '.txt', '.png', '.gz', '.tar.gz', '.', '.d']
 FILTERS = [[], [], ['.txt'], ['.png', '.txt'], ['.gz'], ['.d'], ['.txt', '.']]
 ARGS = ['-', '-', 'a', 'a.b', '|k=v', 'a|k=v.j=w']
 TOPS = ['r', 'img', 'snd.d']
+# spellings of the populator's root (harness/models/pop.py): trailing separator, '/.', relative to the working
+# directory, './x', '' and '.' with the root as working directory
+SPELLINGS = ['abs', 'abs', 'abs_s', 'abs_dot', 'rel', 'rel_s', 'dot_rel', 'rel_dot', 'empty', 'dot', 'dot_s']
 
 
 def gen_tree(rng):
@@ -65,7 +68,7 @@ def gen_c16(rng):
         lines.append(f'newhandle h{k} obj')
     npops = rng.randint(1, 2)
     for p in range(npops):
-        lines.append(f'pop p{p} nest={rng.randint(0, 1)} trim={rng.randint(0, 1)}')
+        lines.append(f'pop p{p} nest={rng.randint(0, 1)} trim={rng.randint(0, 1)} root={rng.choice(SPELLINGS)}')
         for _ in range(rng.randint(1, 4)):
             r = rng.random()
             if r < 0.08:
@@ -95,7 +98,7 @@ def gen_c16(rng):
         flag = lambda: rng.choice(['N', 'N', 'N', '0', '1'])   # noqa
         m = f'm{rng.randrange(nmaps)}' if rng.random() < 0.2 else 'm0'
         lines.append(f'op populate p{rng.randrange(npops)} {m} nest={flag()} trim={flag()} '
-                     f'root={rng.randint(0, 1)}')
+                     f'root={rng.choice(["0", "0", "0", "1"] + SPELLINGS)}')
         lines.append(f'op dump {m}')
         if rng.random() < 0.3:
             lines.append('op links')
